@@ -119,12 +119,13 @@ pub fn vehicles() -> Vec<VehicleT> {
     vec![
         v("v_closed", true, 0., 1000., 2),
         v("v_tight", true, 0., 36., 2),
-        v("v_open", false, 0., MAXT, 2),
+        // vehicles differ in their costs: a quote made with another vehicle's costs shows
+        VehicleT { fixed: 15., per_distance: 2., per_time: 1., ..v("v_open", false, 0., MAXT, 2) },
         v("v_open1", false, 0., MAXT, 1),
-        v("v_closed1", true, 0., 1000., 1),
+        VehicleT { fixed: 25., per_distance: 3., ..v("v_closed1", true, 0., 1000., 1) },
         v("v_shift", true, 20., 60., 2),
         // ends somewhere else than it starts
-        VehicleT { end_loc: 3, ..v("v_other_end", true, 0., 1000., 2) },
+        VehicleT { end_loc: 3, per_time: 3., ..v("v_other_end", true, 0., 1000., 2) },
     ]
 }
 
